@@ -188,7 +188,7 @@ class PathCtx:
 
 
 class Explorer:
-    def __init__(self, branch_timeout_ms=3000, max_paths=4000, max_depth=400):
+    def __init__(self, branch_timeout_ms=400, max_paths=4000, max_depth=400):
         self.branch_timeout_ms = branch_timeout_ms
         self.max_paths = max_paths
         self.max_depth = max_depth
